@@ -80,6 +80,12 @@ class Interp:
     def __init__(self, facts, opaque=None, max_depth=6, loop_bound=2, max_paths=4000, models=None, record_local_calls=True):
         self.f = facts
         self.opaque = opaque or (lambda path: False)
+        # optional hook (interp, state, path, args) -> bool: inline this call even if the callee is opaque or already
+        # on the stack (used to evaluate a concrete expression tree level by level: recursion ends with the tree)
+        self.force_inline = None
+        # opt-in: `x == LITERAL` through a compiler-derived PartialEq, LITERAL a closed constant tree, is decided by
+        # refining x level by level (structural equality is what the derive generates)
+        self.model_literal_eq = False
         self.max_depth = max_depth
         self.loop_bound = loop_bound
         self.max_paths = max_paths
@@ -246,9 +252,83 @@ class Interp:
             return ("const", "bytes", bytes(d["bytes"]))
         if op.get("zst"):
             return ("const", "zst", self.f.ty_s(op["ty"]))
+        if "tree" in op:
+            return self.const_tree(op["tree"])
         if "unevaluated" in op:
             return ("const", "item", op["unevaluated"])
         return ("const", "other", op["d"])
+
+    def const_tree(self, t):
+        if "adt" in t:
+            return ("adt", t["adt"], t["variant"], tuple(self.const_tree(x) for x in t["fields"]))
+        if "bool" in t:
+            return ("const", "bool", bool(t["bool"]))
+        if "int" in t:
+            return ("const", "int", int(t["int"]))
+        if "char" in t:
+            return ("const", "char", t["char"])
+        return ("const", "other", str(t))
+
+    @staticmethod
+    def is_closed_literal(v):
+        if v[0] == "const":
+            return v[1] in ("bool", "int", "char")
+        if v[0] == "adt":
+            return all(Interp.is_closed_literal(x) for x in v[3])
+        return False
+
+    def literal_eq(self, st, x, lit):
+        """-> [(state, bool)]: structural comparison of an arbitrary value with a closed literal"""
+        while x[0] == "ref":
+            x = self.load_ptr(st, x[1])
+        if lit[0] == "const":
+            if x[0] == "const":
+                return [(st, x[1] == lit[1] and x[2] == lit[2])]
+            want = int(lit[2]) if lit[1] in ("bool", "int") else lit[2]
+            if x in st.known:
+                return [(st, st.known[x] == want)]
+            s1 = st.fork()
+            s1.conds.append((self.resolve(s1, x), "val", want))
+            s1.known[x] = want
+            s2 = st.fork()
+            s2.conds.append((self.resolve(s2, x), "val", "not:%s" % want))
+            s2.known[x] = "other"
+            return [(s1, True), (s2, False)]
+        adt, var = lit[1], lit[2]
+        if x[0] == "adt":
+            if x[2] != var:
+                return [(st, False)]
+            fields = x[3]
+            states = [(st, True)]
+        elif x in st.known and isinstance(st.known[x], str):
+            if st.known[x] != var:
+                return [(st, False)]
+            fields = tuple(("proj", x, ("vf", var, i)) for i in range(len(lit[3])))
+            states = [(st, True)]
+        else:
+            s1 = st.fork()
+            s1.conds.append((self.resolve(s1, x), "is", var))
+            s1.known[x] = var
+            s2 = st.fork()
+            s2.conds.append((self.resolve(s2, x), "isnot", var))
+            fields = tuple(("proj", x, ("vf", var, i)) for i in range(len(lit[3])))
+            states = [(s1, True), (s2, False)]
+        out = []
+        for s_, ok in states:
+            if not ok:
+                out.append((s_, False))
+                continue
+            cur = [(s_, True)]
+            for fx, fl in zip(fields, lit[3]):
+                nxt = []
+                for s3, ok3 in cur:
+                    if not ok3:
+                        nxt.append((s3, False))
+                    else:
+                        nxt += self.literal_eq(s3, fx, fl)
+                cur = nxt
+            out += cur
+        return out
 
     # ------------------------------------------------------------------ deep resolution (for reporting)
     def resolve(self, st, v, depth=0):
@@ -581,7 +661,8 @@ class Interp:
         if local and not self.inline_derived and (self.f.bodies[path].get("impl") or {}).get("derived"):
             # compiler-derived trait impls (Clone, PartialEq, Debug ...) are kept as opaque calls
             local = False
-        if local and not self.opaque(path) and path not in stack and depth < self.max_depth:
+        forced = local and self.force_inline is not None and self.force_inline(self, st, path, args)
+        if local and (forced or (not self.opaque(path) and path not in stack)) and depth < self.max_depth:
             if self.record_local_calls:
                 st.events.append(("call_local", path, tuple(self.resolve(st, a) for a in args)))
             fid = self.new_frame(st)
@@ -702,6 +783,12 @@ class Interp:
                 outs = []
             if outs and all(v == ("const", "bool", True) and not [e for e in s2.events[n_ev:] if e[0] == "call"] for s2, v in outs):
                 return [(st, args[0])]
+        if self.model_literal_eq and tr == "std::cmp::PartialEq" and nm in ("eq", "ne") and len(args) == 2 and \
+                (self.f.bodies.get(fn.get("resolved") or "", {}).get("impl") or {}).get("derived"):
+            a, b = self.deref(st, args[0]), self.deref(st, args[1])
+            lit, other = (b, a) if self.is_closed_literal(b) and b[0] == "adt" else ((a, b) if self.is_closed_literal(a) and a[0] == "adt" else (None, None))
+            if lit is not None and not self.is_closed_literal(other):
+                return [(s_, ("const", "bool", ok if nm == "eq" else not ok)) for s_, ok in self.literal_eq(st, other, lit)]
         if tr == "std::clone::Clone" and nm == "clone":
             return [(st, self.deref(st, args[0]))]
         if tr == "std::borrow::ToOwned" and nm == "to_owned":
@@ -760,7 +847,9 @@ class Interp:
                 fut = self.load_ptr(st, fut[1])
             while fut[0] == "box":
                 fut = fut[1]
-            if fut[0] == "coroutine" and fut[1] in self.f.bodies and not self.opaque(fut[1]) and fut[1] not in stack:
+            if fut[0] == "coroutine" and fut[1] in self.f.bodies and (
+                    (not self.opaque(fut[1]) and fut[1] not in stack)
+                    or (self.force_inline is not None and self.force_inline(self, st, fut[1], list(fut[2])))):
                 b = self.f.bodies[fut[1]]
                 fid = self.new_frame(st)
                 st.frames[fid][1] = fut
